@@ -109,6 +109,24 @@ CLAIMS["C20"] = dict(
          "cache_clear, a wrapped function that never suspends. Single flight is claimed for maxsize != 0.",
     technique="Lean 4 invariant proof over an LTS + trace validation against the real code")
 
+CLAIMS["C10"] = dict(
+    text="29 Lean theorems over all event lists of LTS models of Semaphore and CapacityLimiter (any number of "
+         "tasks and borrowers): permit conservation (value + holders + in-flight + lost = initial + extra "
+         "releases), holders never exceed existing permits, value <= max_value, value > 0 implies an empty "
+         "queue, no barging, FIFO hand-over to the first live waiter, cancel-safety (a cancelled waiter changes "
+         "no count; a permit/token already granted is handed on), over-release and non-borrower release "
+         "rejected with the state unchanged; limiter: every wake-up (release, cancelled waiter's give-back, "
+         "total_tokens setter) starts from borrowed < total, borrowed <= total while total was never lowered "
+         "below the number borrowed and never increases above it otherwise, no idle token while anyone is "
+         "queued, statistics equal the ghost counts, one token per borrower, quiescence. Tied to the code by "
+         "replaying every loop handle of generated programs in the models, plus a history oracle.",
+    design="5/C10",
+    note=BASE_NOTE + "Limiter theorems are conditional on two decidable history predicates "
+         "(OneWaitPerBorrower, ReleaseAfterReturn; DESIGN section 4) which the generator satisfies and a misuse "
+         "stream violates deliberately. Modelled, not verified: asyncio Future/Event/Task wake-up and "
+         "cancellation (fc/mc events observed on the real tasks).",
+    technique="Lean 4 invariant proofs over LTS models + trace validation against the real code")
+
 CLAIMS["C04"].update(
     category="proof",
     text="24 Lean theorems, for ALL states of the kernel model (not only reachable ones): "
